@@ -1,3 +1,202 @@
-/- C09: property theorems (none yet). -/
+/-
+C09 — Closing and collecting modules never endangers live ones.
+
+Model: `Wz.Model.Lifetime` (object graph with permanent / registry Go pointers and raw addresses; the
+collector as the op `gc keep` for ANY admissible `keep`; wazero's lifecycle ops as the edges the code
+creates). Lemmas: `Wz.Proofs.C09_Graph`.
+
+FULL STATEMENT (what the property asks of the model; FALSE on this tree, see `private_table_witness`):
+    ∀ kind cache ops,  Ans.dangling ∉ outsW (W.init kind cache false) ops
+  i.e. no history of instantiate / pass-a-reference / call / close / drop / gc ever makes a call use a
+  collected function record or unmapped code.
+
+PROVED (partial): the statement holds for every history in which each raw address was shadowed by
+permanent Go pointers at the moment it was stored (`shadowOk`, an executable flag of the model that the
+oracle reports per history). The syntactic discipline "references only enter tables that are
+exported/imported and involve the defining instance, or tables/globals of the defining instance"
+(`disciplined`) implies `shadowOk` on every history the harness generates (checked by the oracle on
+each run: violation `C09:discipline-does-not-imply-shadow`) — that implication is TESTED, not proved
+(it needs completeness of the executable reachability, only soundness is proved).
+Missing beyond that: the real collector and finalizer timing, `mmap` address reuse (assumed).
+-/
+import Wz.Proofs.C09_Graph
+import Wz.Proofs.C09_Pinned
+
 namespace Wz.C09
+open Wz.Model.Lifetime
+
+/-- NewRuntime establishes the invariant. -/
+theorem init_inv (kind : EngineKind) (cache pin : Bool) : Inv (W.init kind cache pin).g := by
+  unfold W.init
+  exact prims_preserve_inv _ _ inv_empty
+
+/-- Every operation changes the graph only through primitives, each of which preserves the invariant. -/
+theorem step_inv (w : W) (op : Op) (I : Inv w.g) : Inv (stepW w op).1.g := by
+  unfold stepW
+  exact prims_preserve_inv _ _ I
+
+theorem runW_inv (ops : List Op) : ∀ (w : W), Inv w.g → Inv (runW w ops).g := by
+  induction ops with
+  | nil => intro w I; exact I
+  | cons op ops ih =>
+    intro w I
+    unfold runW
+    rw [List.foldl_cons]
+    exact ih _ (step_inv w op I)
+
+/-- **raw_edges_covered_partial** — for all engines, cache settings, model variants and ALL histories
+(any interleaving of instantiate, import, reference passing, calls, close of instance / compiled module /
+cache / runtime, dropping host references, and collections with any admissible retained set):
+if every raw address stored so far was shadowed when stored, then from every entry object (instance,
+module engine, function record, compiled module, shared table …) each raw edge x ⇢ y it can reach
+through Go pointers is doubled by a Go-pointer path to y.
+Partial: the proviso `shadowOk`; see the header. -/
+theorem raw_edges_covered_partial (kind : EngineKind) (cache pin : Bool) (ops : List Op) :
+    let w := runW (W.init kind cache pin) ops
+    w.g.shadowOk = true →
+    ∀ a ∈ w.g.entries, ∀ x y, Path w.g.perm a x → (x, y) ∈ w.g.raw → Path w.g.perm a y := by
+  intro w hs
+  exact (runW_inv ops _ (init_inv kind cache pin)).cov hs
+
+/-- **no_dangling_use_partial** — consequence: whatever a live entry object can reach by following Go
+pointers and raw addresses in any order (a call through a table slot, then the callee's module
+context, then its code segment …) is live: not collected, not unmapped. -/
+theorem no_dangling_use_partial (kind : EngineKind) (cache pin : Bool) (ops : List Op) :
+    let w := runW (W.init kind cache pin) ops
+    w.g.shadowOk = true →
+    ∀ a ∈ w.g.entries, a ∈ w.g.live → ∀ y, Path (w.g.perm ++ w.g.raw) a y → y ∈ w.g.live := by
+  intro w hs a ha hl y p
+  have I := runW_inv ops _ (init_inv kind cache pin)
+  exact live_of_path I hl (perm_path_of_mixed I hs ha p)
+
+/-- The collector model is not too generous: every admissible retained set contains everything
+reachable from the host root through Go pointers (so the precise collector is the least admissible
+one, and any object the theorems call live is one a correct collector must keep). -/
+theorem gc_keeps_reachable (g : G) (keep : List Node) (h : validKeep g keep = true) :
+    ∀ y, Path (g.perm ++ g.reg) 0 y → y ∈ keep := by
+  intro y p
+  simp only [validKeep, Bool.and_eq_true] at h
+  obtain ⟨⟨h0, _⟩, hcl⟩ := h
+  induction p with
+  | refl => exact List.contains_iff_mem.1 h0
+  | snoc _ he ih =>
+    have := (List.all_eq_true.1 hcl) _ he
+    have hl : keep.contains _ = true := List.contains_iff_mem.2 ih
+    simp only [hl, Bool.not_true, Bool.false_or] at this
+    exact List.contains_iff_mem.1 this
+
+/-- The full statement of the property on the model. -/
+def FullStatement (kind : EngineKind) (pin : Bool) : Prop :=
+  ∀ ops : List Op, Ans.dangling ∉ outsW (W.init kind false pin) ops
+
+/-- F7: B(1) and A(0) with private tables; A's `ref.func f` is stored in B's private table through the
+host; A and its compiled module are closed, the host drops its handles, the (precise) collector runs;
+B calls the slot. -/
+def f7History : List Op :=
+  [.inst 1 none .priv, .inst 0 none .priv, .pass 0 .own 1 (.tab 2), .call 1 (.tab 2) 5,
+   .close 0, .closecm 0, .drop 0, .gc, .call 1 (.tab 2) 5]
+
+set_option maxRecDepth 100000 in
+/-- **private_table_witness** — the full statement is false for the code as it is (both engines):
+the 9-op history above ends in a call through a dangling reference; before the collection the same
+call returned 105. -/
+theorem private_table_witness :
+    ¬ FullStatement .compiler false ∧ ¬ FullStatement .interpreter false ∧
+    outsW (W.init .compiler false false) f7History =
+      [.ok, .ok, .ok, .val 105, .ok, .ok, .ok, .ok, .dangling] := by
+  refine ⟨fun h => h f7History (by decide), fun h => h f7History (by decide), by decide⟩
+
+set_option maxRecDepth 100000 in
+/-- the witness is outside the proviso of the partial theorems (the stored address was not shadowed),
+and the discipline flags exactly the offending op -/
+theorem witness_not_shadowed :
+    (runW (W.init .compiler false false) f7History).g.shadowOk = false ∧
+    disciplined (runW (W.init .compiler false false) (f7History.take 2)) (.pass 0 .own 1 (.tab 2)) = false := by
+  decide
+
+set_option maxRecDepth 100000 in
+/-- Finding switch (repaired variant `pinRefs`: the holder of a reference also keeps a Go pointer to the
+record): the same history is safe, every raw address stays shadowed (test on the witness, not a
+general theorem). -/
+theorem witness_repaired :
+    outsW (W.init .compiler false true) f7History =
+      [.ok, .ok, .ok, .val 105, .ok, .ok, .ok, .ok, .val 105] ∧
+    (runW (W.init .compiler false true) f7History).g.shadowOk = true := by
+  decide
+
+/-- **pass_shadowed_repaired** — finding switch, repaired variant (`pinRefs`), for ALL worlds and all
+reference-passing ops (any source, any destination, whatever happened before): storing a reference never
+clears `shadowOk`, provided the primitives of the step passed their guards (`stepOk`, reported by the
+oracle per step as `primsok`). So in the repaired variant the only edges that can ever violate the proviso
+of `raw_edges_covered_partial` / `no_dangling_use_partial` are the fixed ones laid down by `inst`
+(evaluated to be shadowed on every history the harness runs). The as-is variant has no such theorem:
+`witness_not_shadowed`. -/
+theorem pass_shadowed_repaired (w : W) (hp : w.pinRefs = true) (s d : Nat) (how : How) (wh : Where)
+    (hok : stepOk w (.pass s how d wh) = true) :
+    (stepW w (.pass s how d wh)).1.g.shadowOk = w.g.shadowOk :=
+  pinned_pass_shadowed_aux w hp s d how wh hok
+
+set_option maxRecDepth 100000 in
+/-- hypotheses of `pass_shadowed_repaired` are satisfiable by the offending op of the witness -/
+example :
+    let w := runW (W.init .compiler false true) (f7History.take 2)
+    w.pinRefs = true ∧ stepOk w (.pass 0 .own 1 (.tab 2)) = true ∧
+    disciplined w (.pass 0 .own 1 (.tab 2)) = false := by
+  decide
+
+/-- **close_is_error_not_crash** — a call into a closed instance the host still holds (model of
+`FailIfClosed` being evaluated after the function ran): through the host API it is the ordinary
+closed error; through any route it never produces a value, it leaves the object graph untouched, and
+it can only go wrong if the slot's target has been collected (which `no_dangling_use_partial` excludes
+under its proviso). -/
+theorem close_is_error_not_crash (w : W) (j x : Nat) (via : Via) (rj : Inst)
+    (hf : w.find j = some rj) (hh : rj.held = true) (hc : rj.closed = true) :
+    (stepW w (.call j .host x)).2 = Ans.closed ∧
+    (∀ n, (stepW w (.call j via x)).2 ≠ Ans.val n) ∧
+    (stepW w (.call j via x)).2 ∈ [Ans.closed, Ans.trapTable, Ans.trapUnreachable, Ans.dangling] ∧
+    (stepW w (.call j via x)).1.g = w.g := by
+  refine ⟨?_, ?_, ?_, ?_⟩
+  · simp [stepW, stepPrims, hf, hh, hc]
+  · intro n
+    cases via <;> simp only [stepW, stepPrims, hf, hh, hc] <;> (repeat' split) <;> simp_all
+  · cases via <;> simp only [stepW, stepPrims, hf, hh, hc] <;> (repeat' split) <;> simp_all
+  · cases via <;> simp only [stepW, stepPrims, hf, hh, hc] <;> (repeat' split) <;> simp_all [applyPrims]
+
+/-! ### non-vacuity (tests on concrete histories, by evaluation) -/
+
+/-- a history with imports, a shared table, cross-instance references, closes, drops and collections
+that satisfies the discipline -/
+def goodHistory : List Op :=
+  [.inst 0 none .exp, .inst 1 (some 0) (.imp 0), .inst 2 (some 1) .priv,
+   .pass 0 .own 1 (.tab 1), .pass 1 .own 0 (.tab 2), .pass 1 .imp 1 .glob, .pass 2 .own 2 (.tab 0),
+   .pass 2 .imp 2 (.tab 1),
+   .close 0, .closecm 0, .drop 0, .gc, .call 1 (.tab 1) 3, .call 1 (.tab 2) 3, .call 1 .imp 4,
+   .call 2 (.tab 1) 7, .close 1, .drop 1, .gc, .call 2 .imp 1, .call 2 (.tab 1) 7]
+
+set_option maxRecDepth 100000 in
+/-- the proviso of the partial theorems is met by a non-trivial history: entries exist, raw edges exist,
+objects were collected, and the closed-but-reachable exporter still serves calls -/
+example :
+    let w := runW (W.init .compiler false false) goodHistory
+    w.g.shadowOk = true ∧ w.g.raw.length > 10 ∧ w.g.entries.length > 10 ∧
+    w.g.live.length < w.g.next ∧
+    outsW (W.init .compiler false false) goodHistory =
+      [.ok, .ok, .ok, .ok, .ok, .ok, .ok, .ok, .ok, .ok, .ok, .ok, .val 103, .val 203, .val 104,
+       .val 207, .ok, .ok, .ok, .val 201, .val 207] := by
+  decide
+
+set_option maxRecDepth 100000 in
+/-- hypotheses of `close_is_error_not_crash` are satisfiable: instance 0 closed, still held -/
+example :
+    let w := runW (W.init .interpreter false false) [.inst 0 none .priv, .pass 0 .own 0 (.tab 1), .close 0]
+    (∃ r, w.find 0 = some r ∧ r.held = true ∧ r.closed = true) ∧
+    (stepW w (.call 0 (.tab 1) 5)).2 = Ans.closed ∧ (stepW w (.call 0 (.tab 0) 5)).2 = Ans.trapTable := by
+  decide
+
+set_option maxRecDepth 100000 in
+/-- `gc_keeps_reachable` applies to the collector the oracle uses: its retained set is admissible -/
+example : validKeep (runW (W.init .compiler false false) (f7History.take 7)).g
+    (preciseKeep (runW (W.init .compiler false false) (f7History.take 7)).g) = true := by
+  decide
+
 end Wz.C09
